@@ -97,6 +97,13 @@ TEMPLATES = {
                'repeat 2 with {n} from 10 to 20 print {n}',
     'lightvar': 'repeat all as {n} begin print {n} on {n} end',
     'named-field': 'assign {n} 3 printf "{{{n}}} {{}}" {n}',
+    # the name as the very last token, where a further operand could follow
+    'tail-zone': 'assign {n} 1 hue 9 set "Z" zone {n}',
+    'tail-row': 'define {n} 1 set "M" row 0 column {n}',
+    'tail-print': 'assign {n} 4 print {n} print',
+    'tail-println': 'define zf with {n} begin print {n} println end zf 6 println',
+    'tail-return': 'define zf with {n} begin return {n} end print [ zf 2 ] '
+                   'assign {n} 8 hue {n}',
     # a variable in every position where the grammar takes a number ...
     'number-positions':
         'assign {n} 1 set "Z" zone {n} set "Z" zone 0 {n} set "Z" zone {n} 3 '
@@ -304,6 +311,8 @@ def part_names(ctx):
         baseline[pos] = repr(refmodel.stream_of(r.log))
     names = candidates(ctx)
     positions = list(TEMPLATES)
+    from bardolph.controller.script_job import ScriptJob
+    used = ScriptJob()       # every text is also loaded into this one job
     for i, name in enumerate(names):
         if not ctx.mine(i):
             continue
@@ -322,6 +331,22 @@ def part_names(ctx):
             ok = r.compile_exc is None and r.accepted and not r.stops and \
                 repr(refmodel.stream_of(r.log)) == want
             if ok:
+                # ... whatever the same job object compiled before (the name
+                # was a routine a moment ago, now it is a variable, ...)
+                try:
+                    used.load_string(text)
+                    again = used.program is not None
+                except Exception as ex:
+                    again = repr(ex)
+                if again is not True:
+                    ctx.violation(
+                        'name:depends-on-earlier-scripts:' + pos,
+                        'accepted by a fresh job, {} by a job that had loaded '
+                        'other scripts before | {}'.format(
+                            'rejected (' + used.compile_errors.strip()[:80] + ')'
+                            if again is False else again, text), replay)
+                    used = ScriptJob()
+                    break
                 ctx.count('names_ok')
                 continue
             if name in KNOWN_RESERVED:
